@@ -104,3 +104,30 @@ def ev(e, env, calls=None):
             raise CannotEval("isinstance")
         raise CannotEval("call %s" % d)
     raise CannotEval(type(e).__name__)
+
+
+class _Return(Exception):
+    def __init__(self, v):
+        self.v = v
+
+
+def run(func_node, env, calls=None):
+    """evaluate the straight-line/if body of a small pure function under `env` (updated in place by assignments to local
+    names and dotted attributes); returns the returned value (None when the body falls off the end)"""
+    def block(stmts):
+        for st in stmts:
+            if isinstance(st, ast.Expr) and isinstance(st.value, ast.Constant) or isinstance(st, ast.Pass):
+                continue
+            if isinstance(st, ast.If):
+                block(st.body if ev(st.test, env, calls) else st.orelse)
+            elif isinstance(st, ast.Assign) and len(st.targets) == 1 and A.dotted(st.targets[0]):
+                env[A.dotted(st.targets[0])] = ev(st.value, env, calls)
+            elif isinstance(st, ast.Return):
+                raise _Return(ev(st.value, env, calls) if st.value is not None else None)
+            else:
+                raise CannotEval("statement %s" % type(st).__name__)
+    try:
+        block(func_node.body)
+    except _Return as r:
+        return r.v
+    return None
